@@ -30,19 +30,19 @@ TRUSTED_BASE = [
 
 # per property: (random profiles with weights, enumerators)
 WORLD = {
-    'C01': dict(profiles=['match', 'general', 'seq'], enums=['bounds_small', 'forbid_s', 'life_s']),
+    'C01': dict(profiles=['match', 'general', 'seq', 'nest'], enums=['bounds_small', 'forbid_s', 'life_s', 'nested_s']),
     'C02': dict(profiles=['match', 'seq', 'general'], enums=['seq_overlap', 'forbid_s']),
     'C03': dict(profiles=['match', 'general'], enums=['bounds']),
     'C04': dict(profiles=['life', 'general', 'match'], enums=['life']),
     'C05': dict(profiles=['seq', 'watch', 'general'], enums=['seq2', 'seq2mon', 'seq3_s', 'seq_overlap']),
     'C06': dict(profiles=['seq', 'watch', 'life'], enums=['seq2', 'seq2mon', 'seq3_s']),
     'C07': dict(profiles=['match', 'general'], enums=['forbid']),
-    'C08': dict(profiles=['actions', 'general'], enums=['actions']),
+    'C08': dict(profiles=['actions', 'nest', 'general'], enums=['actions', 'nested']),
     'C13': dict(profiles=['watch', 'life'], enums=['watch', 'watch_seq']),
     'C14': dict(profiles=['life', 'general', 'watch', 'seq'], enums=['destruction', 'watch_seq_s', 'seq2mon_s']),
     'C15': dict(profiles=['general', 'match', 'seq', 'watch', 'life'], enums=['life_s', 'forbid_s', 'seq2mon_s']),
-    'C16': dict(profiles=['trace', 'match', 'seq'], enums=['forbid_s', 'seq_overlap_s']),
-    'C17': dict(profiles=['trace'], enums=['tracers']),
+    'C16': dict(profiles=['trace', 'match', 'seq', 'nest'], enums=['forbid_s', 'seq_overlap_s', 'nested_s']),
+    'C17': dict(profiles=['trace', 'nest'], enums=['tracers', 'nested']),
 }
 
 B5 = [(1, 1), (0, 'inf'), (1, 2), (2, 2), (0, 1)]
@@ -84,6 +84,10 @@ def enum_scripts(name, tier, rng):
         return worldgen.enum_watch(6, True, rng, 2000 if q else 40000)
     if name == 'destruction':
         return worldgen.enum_destruction(rng, 2500 if q else 60000)
+    if name == 'nested':
+        return worldgen.enum_nested(rng, None)
+    if name == 'nested_s':
+        return worldgen.enum_nested(rng, 600 if q else 4000)
     if name == 'tracers':
         return worldgen.enum_tracers(rng, None if not q else 8000)
     raise KeyError(name)
@@ -213,7 +217,7 @@ def check_world(prop, tier, seed, replay=None):
         if mo is None or mc:
             failing.append((idx, 0, 'model driver failed: %s' % mc))
             continue
-        bad = [l for l in mo if l in ('bad-op', 'parse-error')]
+        bad = [l for l in mo if l == 'parse-error' or 'bad-op' in l.split(' ; ')]     # also: a nested call the model rejects as illegal
         if bad:
             gen_errors += 1
             continue
@@ -256,7 +260,7 @@ def check_world(prop, tier, seed, replay=None):
             if ls is None:
                 return False
             m = vlib.run_scripts(tmodel, [ls], 1)[0]
-            if m[0] is None or any(x in ('bad-op', 'parse-error') for x in m[0]):
+            if m[0] is None or any(x == 'parse-error' or 'bad-op' in x.split(' ; ') for x in m[0]):
                 return False
             im = vlib.run_scripts(hw, [ls], 1)[0]
             if im[1]:
@@ -475,10 +479,30 @@ def check_c10(tier, seed, replay):
             # a replay is a list of `tree | value | oracle` lines: rebuild a harness with exactly those trees
             raise vlib.BuildError('replay of C10 needs the generating seed: re-run the check with VERIF_SEED from the replay header')
         n = 150 if tier == 'quick' else 1500
-        files, lines, trees = matchergen.generate(rng, n, 8 if tier == 'quick' else 16)
-        exe = vlib.build_generated_harness('matcher', files)
-        return lines, exe
-    return check_pure(
+        ntu = 8 if tier == 'quick' else 16
+        state = rng.getstate()
+        drop = set()
+        for attempt in range(6):
+            rng.setstate(state)
+            files, lines, trees, blocks = matchergen.generate(rng, n, ntu, frozenset(drop))
+            try:
+                exe = vlib.build_generated_harness('matcher', files)
+                return lines, exe
+            except vlib.BuildError as e:
+                # expressions that no longer compile against the tree under test: report them, leave them out, go on with the rest
+                new = set()
+                for m in re.finditer(r'gen_trees_(\d+)\.cpp:(\d+):', str(e.full if hasattr(e, 'full') else e)):
+                    t, ln = int(m.group(1)), int(m.group(2))
+                    for (bt, l0, l1), (bid, text) in blocks.items():
+                        if bt == t and l0 <= ln <= l1 and bid not in drop:
+                            new.add(bid)
+                            uncompilable.append((bid, text, str(e)[-1500:]))
+                if not new:
+                    raise
+                drop |= new
+        raise vlib.BuildError('generated matcher harness: too many expressions fail to compile')
+    uncompilable = []
+    rc = check_pure(
         'C10', tier, seed, None, 'matcher', 'matcher', None,
         rule='seeded random matcher expressions (depth <= 3; eq/ne/lt/le/gt/ge duck-typed and explicitly typed, !, *, any_of/all_of/'
              'none_of with 1-3 operands incl. plain values, MEMBER_IS, re with/without icase, _ and ANY(T)) compiled against the real '
@@ -490,6 +514,20 @@ def check_c10(tier, seed, replay):
                      'it is exercised at top level only'],
         prepare=prepare,
         extra_trusted=['Python re as regex oracle on the pattern subset used'])
+    if uncompilable:
+        # every generated expression compiles against the unchanged tree; one that stops compiling is a failing input of its own
+        seen = set()
+        for bid, text, err in uncompilable[:3]:
+            if bid in seen:
+                continue
+            seen.add(bid)
+            path = vlib.write_replay('C10', tier, seed, 'nocompile-' + bid,
+                                     ['verdict violation', 'a legal matcher expression (generated; compiles against the unchanged tree) no longer compiles',
+                                      'compile inside a function with: #include "harness/matcher/hm.hpp", g++ -std=c++17 -I/repo/include'],
+                                     [text, '', 'compiler:'] + err.split('\n')[-25:])
+            print('VIOLATION property=C10 replay=%s' % path)
+        return 1
+    return rc
 
 
 @pure('C18')
